@@ -48,6 +48,33 @@ CHORD_FIGS = ['C', 'Am', 'G7', 'F#m7b5', 'Bb', 'Cmaj7', 'Absus4', 'Edim', 'Caug'
               'G5', 'Asus2', 'Fm6', 'D9', 'Gm(b5)', 'C/E', 'Am/C', 'Bb/D', 'B/D#', 'Cbm', 'Fb', 'E#m']
 
 
+CHORD_MODS = ['', '', '', '(b5)', '(#5)', '(add9)', '(no3)', '(b9)', '(#11)', 'add2', '(no5)']
+CHORD_BASSES = ['', '', '/E', '/Bb', '/C#', '/G', '/D', '/Ab']
+
+
+def _grammar_figs(rng, n):
+    """figures over the whole chord-symbol grammar: root (letter, 0-2 accidentals) x EVERY kind abbreviation the
+    library's parser knows (some contain a slash themselves: '/o', '/o7', '6/9') x a modification x a bass.  Every
+    abbreviation appears at least once with and once without a bass; the rest is sampled."""
+    from note_seq import chord_symbols_lib as csl
+    kinds = [ab for abbrevs, _ in csl._CHORD_KINDS for ab in abbrevs]
+    roots = [l + acc for l in 'CDEFGAB' for acc in ('', '#', 'b', '##', 'bb')]
+    figs = []
+    for k in kinds:
+        figs.append(rng.choice(roots) + k)
+        figs.append(rng.choice(roots) + k + rng.choice(CHORD_BASSES[2:]))
+    while len(figs) < n:
+        figs.append(rng.choice(roots) + rng.choice(kinds) + rng.choice(CHORD_MODS) + rng.choice(CHORD_BASSES))
+    ok = []
+    for f in figs:          # keep figures the parser gives a meaning to (the rest are C15's rejection paths)
+        try:
+            _meaning(f)
+            ok.append(f)
+        except Exception:   # noqa
+            pass
+    return ok
+
+
 def _meaning(fig):
     from note_seq import chord_symbols_lib as csl
     if fig == 'N.C.':
@@ -126,7 +153,7 @@ def cases(rng, tier, n=None):
     for op, nc in (('chord_mm', 25), ('chord_triad', 49)):
         for i in range(-2, nc + 2):
             out.append({'op': op, 'input': [i, CHORD_FIGS[(i + 2) % len(CHORD_FIGS)]]})
-        for fig in CHORD_FIGS + ['N.C.']:
+        for fig in CHORD_FIGS + ['N.C.'] + _grammar_figs(rng, 1500 if thorough else 260):
             out.append({'op': op, 'input': [rng.randrange(nc), fig]})
     if n is not None:
         out = out[:n]
